@@ -58,15 +58,41 @@ def blur_case(draw, tier):
     img, kind = draw(image(tier))
     fn = draw(st.sampled_from(["pixel", "jitter", "smear"]))
     os_ = draw(st.integers(1, 5))
-    ext = draw(st.sampled_from([0.0, 0.3, 1.0, 2.5, 6.0, 2, 3, 60, 100, 200, 250, 120])) if draw(st.booleans()) else draw(gen.finite(0.0, 6.0))
+    cat = draw(st.sampled_from(["zero", "sub", "sub", "sub", "few", "few", "few", "few", "round", "round", "huge"]))
+    if cat == "zero":
+        ext = 0.0
+    elif cat == "sub":            # less than one (oversampled) sample: the kernel's ringing matters most here
+        ext = draw(gen.finite(0.02, 0.95)) / os_
+    elif cat == "few":
+        ext = draw(gen.finite(0.0, 6.0))
+    elif cat == "round":
+        ext = draw(st.sampled_from([0.3, 0.5, 1.0, 2.5, 6.0, 1, 2, 3]))
+    else:
+        ext = draw(st.sampled_from([60, 100, 120, 200, 250]))
     if kind != "int_counts":
         img = img * draw(gen.scales())
+    ptypes = draw(_param_types())
+    if draw(st.integers(0, 9)) == 0:
+        # blur extents and oversampling read from 8-bit tables: integer-valued, same small numpy integer type
+        ext = draw(st.sampled_from([60, 100, 120, 200, 250]))
+        os_ = draw(st.integers(2, 5))
+        t = draw(st.sampled_from(["uint8", "int8"]))
+        ptypes = {"ext_type": t, "os_type": t}
     return {"layout": draw(gen.layouts()), "img": img, "kind": kind, "fn": fn, "oversample": os_, "extent": ext,
             # numeric types of the scalar parameters (numpy integer / float scalars, 0-d arrays)
-            **draw(_param_types()),
+            **ptypes,
             "angle": draw(st.sampled_from([0, 90, 45.0, 180, 270, 30.0])) if draw(st.booleans()) else draw(gen.finite(0.0, 360.0)),
             "pixelscale": draw(gen.pos_log(1e-6, 1e-4)), "roll": [draw(st.integers(-30, 30)), draw(st.integers(-30, 30))],
             "phys": draw(st.booleans())}
+
+
+def _eight_bit_overflow(case):
+    e = gen.typed_scalar(case["extent"], case.get("ext_type"))
+    o = gen.typed_scalar(case["oversample"], case.get("os_type"))
+    small = (np.uint8, np.int8)
+    if not (isinstance(e, small) and isinstance(o, small)):
+        return False
+    return int(e) * int(o) > min(np.iinfo(type(e)).max, np.iinfo(type(o)).max)
 
 
 def call(case, img):
@@ -110,10 +136,12 @@ def blur(case, ctx):
         raise Skip("all_zero_image")
     ext = case["extent"] if fn != "pixel" else float(case["oversample"])
     ctx.tag("fn:" + fn, "nonsquare" if shape[0] != shape[1] else "square", gen.parity_tags("img", shape),
-            "img:" + case["kind"], "zero_extent" if ext == 0 else None, "phys_units" if case["phys"] and fn != "pixel" else None,
+            "img:" + case["kind"], "zero_extent" if ext == 0 else None,
+            "sub_sample_extent" if 0 < ext * (1 if fn == "pixel" else case["oversample"]) < 1 else None, "phys_units" if case["phys"] and fn != "pixel" else None,
             f"os:{case['oversample']}", "1xN" if 1 in shape else None,
             "ext_type:" + type(gen.typed_scalar(case["extent"], case.get("ext_type"))).__name__,
-            "os_type:" + type(gen.typed_scalar(case["oversample"], case.get("os_type"))).__name__)
+            "os_type:" + type(gen.typed_scalar(case["oversample"], case.get("os_type"))).__name__,
+            "8bit_product_out_of_range" if fn != "pixel" and _eight_bit_overflow(case) else None)
     ctx.nontrivial_if(case["kind"] != "const" and ext > 0)
     img0 = img.copy()
     with lentil_call("C19." + fn, f"{fn}(image {shape})"):
